@@ -23,16 +23,24 @@ theorem evalGuard_ok (pp : List (List String)) (N : List String) (G seen : List 
       rw [derefOk_eq, List.all_eq_true]
       intro h hh
       exact hs h (hc.1 h hh)
-    simp only [evalGuard, hd, Bool.not_true, Bool.false_eq_true, ↓reduceIte, List.all_cons]
+    have e : evalGuard pp N (g :: gs) = if N.contains (joinPath g) then .ok false else evalGuard pp N gs := by
+      simp only [evalGuard, hd, Bool.not_true, Bool.false_eq_true, ↓reduceIte]
+    rw [e, List.all_cons]
     by_cases hg : N.contains (joinPath g) = true
-    · simp [hg, nonNil]
-    · have hg' : nonNil N g = true := by simp [nonNil, hg]
-      simp only [hg, Bool.false_eq_true, ↓reduceIte, hg', Bool.true_and]
+    · have hg' : nonNil N g = false := by unfold nonNil; rw [hg]; rfl
+      rw [if_pos hg, hg', Bool.false_and]
+    · have hg' : nonNil N g = true := by
+        unfold nonNil
+        cases h : N.contains (joinPath g)
+        · rfl
+        · exact absurd h hg
+      rw [if_neg hg, hg', Bool.true_and]
       apply ih (seen ++ [g]) hc.2
       intro s hs'
       rcases List.mem_append.mp hs' with h | h
       · exact hs s h
-      · simp at h; subst h; exact hg'
+      · have : s = g := by simpa using h
+        subst this; exact hg'
 
 /-- the template's own nil tests make the value step total, and it is the ideal one -/
 theorem stratValue_eq (s : Strat) (v : V) : stratValue s v = .ok (idealValue s v) := by
@@ -77,17 +85,17 @@ theorem execStmt_ideal (rs ws : SideSem) (A : List (List String)) (N : List Stri
       have hwr : (hops ws.ptrs wl.path).all w.alloc.contains = true := by
         simp only [List.all_eq_true, List.contains_iff_mem] at halloc ⊢
         exact fun h hh => hA h (halloc h hh)
-      simp only [hg, hset, bind, Except.bind, pure, Except.pure]
-      by_cases hn : (hops rs.ptrs rl.path).all (nonNil N) = true
-      · have hd : derefOk rs.ptrs N rl.path = true := by rw [derefOk_eq]; exact hn
-        have hn' : ((hops rs.ptrs rl.path).all fun h => !N.contains (joinPath h)) = true := hn
-        simp only [hn, hn', Bool.not_true, Bool.false_eq_true, ↓reduceIte, hd, hf, stratValue_eq, throw, throwThe,
-          MonadExceptOf.throw]
+      rw [hg, hset]
+      have hsame : ((hops rs.ptrs rl.path).all fun h => !N.contains (joinPath h)) = (hops rs.ptrs rl.path).all (nonNil N) := rfl
+      rw [hsame]
+      cases hn : (hops rs.ptrs rl.path).all (nonNil N) with
+      | false => simp
+      | true =>
+        have hd : derefOk rs.ptrs N rl.path = true := by rw [derefOk_eq]; exact hn
+        simp only [hd, hf, stratValue_eq, Bool.not_true, Bool.false_eq_true, ↓reduceIte]
         cases idealValue c.strat (readLeaf N rl) with
         | none => rfl
-        | some v => simp [hwr]
-      · have hn' : ¬ ((hops rs.ptrs rl.path).all fun h => !N.contains (joinPath h)) = true := hn
-        simp [hn, hn']
+        | some v => simp only [hwr, ↓reduceIte]
 
 theorem idealStmt_alloc (rs ws : SideSem) (N : List String) (w : WSt) (c : Claim) :
     (idealStmt rs ws N w c).alloc = w.alloc := by
@@ -108,7 +116,6 @@ theorem execStmts_ideal (rs ws : SideSem) (A : List (List String)) (N : List Str
   | cons c cs ih =>
     simp only [execStmts, List.foldl_cons]
     rw [execStmt_ideal rs ws A N mapperNil c w (ht c List.mem_cons_self) hA (hf c List.mem_cons_self)]
-    simp only [bind, Except.bind]
     apply ih
     · exact fun c' h => ht c' (List.mem_cons_of_mem _ h)
     · intro a ha; rw [idealStmt_alloc]; exact hA a ha
